@@ -46,6 +46,8 @@ let () =
         | "Y" :: l :: _ -> string_of_codes (stable_render (List.map keydesc (items l)))
         | "I" :: h :: _ -> string_of_codes (identok_render (codes_of_hex h))
         | "I" :: [] -> string_of_codes (identok_render [])
+        | "H" :: l :: _ -> string_of_codes (helpers_render (List.map codes_of_hex (items l)))
+        | "H" :: [] -> string_of_codes (helpers_render [])
         | "F" :: l :: _ -> string_of_codes (fields_render (List.map keydesc (items l)))
         | "T" :: l :: _ -> string_of_codes (emit_render (List.map rule (items l)))
         | "C" :: o :: k :: e :: v :: _ -> string_of_codes (container_render (occ o) (key k) (ety e) (vk v))
